@@ -22,6 +22,34 @@ def hull_distance(equations, points, tolerance):
     return out
 
 
+# ---- equivalent spellings (confirmed by hand) ---------------------------------------------------------------
+def vertical_distance_plane_value(equations, points):
+    # the same offset written as "y of the point minus y of the facet at the point's other coordinates":
+    # y_facet = -(p_rest . n_rest + b) / n_y, and p_y - y_facet = (p.n + b) / n_y
+    plane_values = -(points[:, 1:] @ equations[:, 1:-1].T + equations[:, -1]) / equations[:, 0]
+    return points[:, :1] - plane_values
+
+
+def hull_distance_plane_value(equations, points, tolerance):
+    d = vertical_distance_plane_value(equations, points)
+    below = np.any(d < -tolerance, axis=1)
+    out = np.zeros(len(points))
+    out[~below] = np.min(d[~below], axis=1)
+    neg = d.copy()
+    neg[d > 0] = -np.inf
+    out[below] = np.max(neg[below], axis=1)
+    return out
+
+
+def hull_distance_pointwise(equations, points, tolerance):
+    # point by point: a point below some facet (offset < -tolerance) has at least one non-positive offset, and the
+    # largest of those is what the masked maximum selects
+    d = vertical_distance(equations, points)
+    below = np.any(d < -tolerance, axis=1)
+    out = [np.max(row[row <= 0]) if b else np.min(row) for row, b in zip(d, below)]
+    return np.array(out, dtype=float)
+
+
 def dch_fit(X, y, low_dim_idx):
     high_dim_idx = np.setdiff1d(np.arange(X.shape[1]), low_dim_idx)
     data = np.zeros((X.shape[0], len(low_dim_idx) + 1))
@@ -37,3 +65,13 @@ def dch_fit(X, y, low_dim_idx):
 def dch_score_samples(X, y, low_dim_idx, equations, tolerance):
     pts = np.hstack((y.reshape(-1, 1), X[:, low_dim_idx]))
     return hull_distance(equations, pts, tolerance).reshape(y.shape)
+
+
+def dch_score_samples_plane_value(X, y, low_dim_idx, equations, tolerance):
+    pts = np.hstack((y.reshape(-1, 1), X[:, low_dim_idx]))
+    return hull_distance_plane_value(equations, pts, tolerance).reshape(y.shape)
+
+
+def dch_score_samples_pointwise(X, y, low_dim_idx, equations, tolerance):
+    pts = np.hstack((y.reshape(-1, 1), X[:, low_dim_idx]))
+    return hull_distance_pointwise(equations, pts, tolerance).reshape(y.shape)
